@@ -134,6 +134,13 @@ func pathOf(info *types.Info, e ast.Expr) (string, bool) {
 		}
 		return "", false
 	case *ast.SelectorExpr:
+		if fld := synthField[x]; fld != nil {
+			// an embedded-field hop spelled out by the accessor inliner
+			if base, ok := pathOf(info, x.X); ok {
+				return base + "." + fld.Name(), true
+			}
+			return "", false
+		}
 		sel := info.Selections[x]
 		if sel == nil || sel.Kind() != types.FieldVal {
 			return "", false
